@@ -422,6 +422,78 @@ func %s() {
 			fam.Instances = append(fam.Instances, Instance{Func: name, Stratum: m.id + "/" + fc.class, Desc: "fault " + fc.id + " in model " + m.id, Text: fc.text, Expect: []string{"executed"}})
 		}
 	}
+	// a rule raises the stop tag and then faults: the fault still surfaces (all four stop-tag entry points)
+	tagText := "rule \"r0\" salience 30 begin\n ev(\"r0.s\")\n ev(\"r0.e\")\nend\nrule \"bad\" salience 20 begin\n ev(\"bad.s\")\n stag.StopTag = true\n y = np.I\n ev(\"bad.e\")\nend\nrule \"r2\" salience 10 begin\n ev(\"r2.s\")\n ev(\"r2.e\")\nend\n"
+	for _, m := range []struct{ id, call string }{
+		{"stoptag", "eng.ExecuteWithStopTagDirect(rb, pol, stag)"},
+		{"selstoptag", "eng.ExecuteSelectedRulesWithControlAndStopTag(rb, pol, stag, []string{\"r2\", \"bad\", \"r0\"})"},
+		{"selstoptaggiven", "eng.ExecuteSelectedRulesWithControlAndStopTagAsGivenSortedName(rb, pol, stag, []string{\"r0\", \"bad\", \"r2\"})"},
+		{"mixstoptag", "eng.ExecuteMixModelWithStopTagDirect(rb, stag)"},
+	} {
+		name := "FT_" + m.id
+		fmt.Fprintf(&b, `
+// the rule that faults has raised the stop tag first, model %s
+func %s() {
+	w := mkWorld()
+	npnil := w.npnil
+	pol := vnd.Bool("pol")
+	_ = pol
+	stag := &engine.Stag{}
+	w.dc.Add("stag", stag)
+	rb := compile(w.dc, %q)
+	eng := engine.NewGengine()
+	err := %s
+	vnd.Event("ret")
+	vnd.Quiesce()
+	vnd.Reach("executed")
+	if vnd.Count("bad.s") == 1 {
+		vnd.Assert(vnd.Iff(vnd.Count("bad.e") == 0, npnil), "the rule fails exactly when the fault fires")
+		vnd.Assert(vnd.Implies(npnil, err != nil), "a fault surfaces as a non-nil error")
+	}
+}
+`, m.id, name, tagText, m.call)
+		fam.Instances = append(fam.Instances, Instance{Func: name, Stratum: m.id + "/tag-then-fault", Desc: "stop tag raised, then a fault, model " + m.id, Text: tagText, Expect: []string{"executed"}})
+	}
+	// pool entry points: as many failing calls as the pool has instances, under both policies, then a healthy call
+	poolText := "rule \"r0\" salience 30 begin\n ev(\"r0.s\")\n ev(\"r0.e\")\nend\nrule \"bad\" salience 20 begin\n ev(\"bad.s\")\n y = one / z\n ev(\"bad.e\")\nend\nrule \"r2\" salience 10 begin\n ev(\"r2.s\")\n ev(\"r2.e\")\nend\n"
+	for _, m := range []struct{ id, call string }{
+		{"Execute", "gp.Execute(data, pol)"},
+		{"ExecuteWithStopTagDirect", "gp.ExecuteWithStopTagDirect(data, pol, &engine.Stag{})"},
+		{"ExecuteConcurrent", "gp.ExecuteConcurrent(data)"},
+		{"ExecuteSelectedRulesWithControl", "gp.ExecuteSelectedRulesWithControl(data, pol, []string{\"r0\", \"bad\", \"r2\"})"},
+		{"ExecuteNSortMConcurrent", "gp.ExecuteNSortMConcurrent(2, 1, pol, data)"},
+		{"ExecuteNConcurrentMSort", "gp.ExecuteNConcurrentMSort(2, 1, pol, data)"},
+		{"ExecuteDAGModel", "gp.ExecuteDAGModel([][]string{{\"r0\", \"bad\"}, {\"r2\"}}, data)"},
+		{"ExecuteRulesWithMultiInputWithSpecifiedEM", "gp.ExecuteRulesWithMultiInputWithSpecifiedEM(data)"},
+	} {
+		name := "FP_" + m.id
+		fmt.Fprintf(&b, `
+// pool.%s: three failing requests on a (1,2) pool, then a healthy one
+func %s() {
+	apis := map[string]interface{}{"ev": func(s string) { vnd.Event(s) }, "one": int64(1)}
+	gp, e := engine.NewGenginePool(1, 2, engine.SortModel, %q, apis)
+	if e != nil {
+		vnd.Assert(false, "pool construction must succeed")
+	}
+	pol := vnd.Bool("pol")
+	_ = pol
+	for round := 0; round < 3; round++ {
+		data := map[string]interface{}{"z": int64(0)}
+		err, _ := %s
+		vnd.Quiesce()
+		vnd.Assert(err != nil, "a fault surfaces as a non-nil error")
+	}
+	c0 := vnd.Count("r2.e")
+	data := map[string]interface{}{"z": int64(1)}
+	err, _ := %s
+	vnd.Quiesce()
+	vnd.Reach("executed")
+	vnd.Assert(err == nil, "a later healthy call on the same pool succeeds")
+	vnd.Assert(vnd.Count("r2.e") == c0+1, "a later healthy call runs its rules")
+}
+`, m.id, name, poolText, m.call, m.call)
+		fam.Instances = append(fam.Instances, Instance{Func: name, Stratum: "pool/" + m.id, Desc: "three failing pool requests through " + m.id + ", then a healthy one", Text: poolText, Expect: []string{"executed"}})
+	}
 	// two rules of one call fail (in the concurrent models: at the same time)
 	text2 := "rule \"r0\" salience 30 begin\n ev(\"r0.s\")\n ev(\"r0.e\")\nend\nrule \"bad\" salience 20 begin\n ev(\"bad.s\")\n y = nosuch + 1\n ev(\"bad.e\")\nend\nrule \"bad2\" salience 15 begin\n ev(\"bad2.s\")\n y = boom()\n ev(\"bad2.e\")\nend\nrule \"bad3\" salience 12 begin\n ev(\"bad3.s\")\n y = np.I\n ev(\"bad3.e\")\nend\nrule \"r2\" salience 10 begin\n ev(\"r2.s\")\n ev(\"r2.e\")\nend\n"
 	all5 := "[]string{\"r2\", \"bad3\", \"bad\", \"r0\", \"bad2\"}"
